@@ -33,6 +33,7 @@ type genOpts struct {
 	marker    string
 	noMaps    bool
 	simpleStr bool
+	allowQuoted bool
 }
 
 func genString(r *rand.Rand, o *genOpts) string {
@@ -157,6 +158,18 @@ func genWKT(r *rand.Rand, m protoreflect.Message, o *genOpts) bool {
 		l := m.Mutable(f.ByName("paths")).List()
 		for i, n := 0, r.IntN(3); i < n; i++ {
 			l.Append(protoreflect.ValueOfString(pick(r, []string{"a", "foo_bar", "a.b_c", "x.y.z", "user.display_name"})))
+		}
+		return true
+	case "google.protobuf.StringValue":
+		if chance(r, 70) {
+			v := genString(r, o)
+			// a value that starts and ends with a double quote is taken for an already-quoted JSON
+			// string by the URL parameter parser (pinned by the repo's own tests); C07 probes that
+			// separately, the shared generator stays clear of it.
+			if !o.allowQuoted && len(v) >= 2 && v[0] == '"' && v[len(v)-1] == '"' {
+				v = "q" + v
+			}
+			m.Set(f.ByName("value"), protoreflect.ValueOfString(v))
 		}
 		return true
 	case "google.protobuf.Any":
